@@ -138,13 +138,22 @@ impl World {
         let llgr = v.at(6).bool();
         let nollgr = v.at(7).bool();
         if llgr || nollgr {
+            // the position of the well-known communities in the list varies with the
+            // token: after an ordinary community, before it, or alone
             let mut bin = Vec::new();
-            bin.extend_from_slice(&0xfde8_0001u32.to_be_bytes());
+            let lay = tok % 3;
+            if lay == 0 {
+                bin.extend_from_slice(&0xfde8_0001u32.to_be_bytes());
+            }
             if llgr {
                 bin.extend_from_slice(&0xffff_0006u32.to_be_bytes());
             }
             if nollgr {
                 bin.extend_from_slice(&0xffff_0007u32.to_be_bytes());
+            }
+            if lay == 1 {
+                bin.extend_from_slice(&0xfde8_0001u32.to_be_bytes());
+                bin.extend_from_slice(&0xffff_0001u32.to_be_bytes());
             }
             out.push(Attribute::new_with_bin(Attribute::COMMUNITY, bin).unwrap());
         }
@@ -158,10 +167,43 @@ impl World {
             }
             out.push(Attribute::new_with_bin(Attribute::CLUSTER_LIST, bin).unwrap());
         }
+        // MAC mobility extended community in every layout (token mod 4): after an unrelated
+        // community, before one, alone with the sticky flag, followed by a second MAC mobility
+        // community with another sequence number (the first one counts)
+        let unrelated = [0x03u8, 0x0c, 0, 0, 0, 0, 0, 8];
         if let Some(mm) = v.at(8).list().first() {
-            let mut bin = vec![0x03, 0x0c, 0, 0, 0, 0, 0, 8]; // an unrelated extended community first
-            bin.extend_from_slice(&[0x06, 0x00, 0x00, 0x00]);
-            bin.extend_from_slice(&mm.u32().to_be_bytes());
+            let seq = mm.u32();
+            let mut bin = Vec::new();
+            match tok % 4 {
+                0 => {
+                    bin.extend_from_slice(&unrelated);
+                    bin.extend_from_slice(&[0x06, 0x00, 0x00, 0x00]);
+                    bin.extend_from_slice(&seq.to_be_bytes());
+                }
+                1 => {
+                    bin.extend_from_slice(&[0x06, 0x00, 0x00, 0x00]);
+                    bin.extend_from_slice(&seq.to_be_bytes());
+                    bin.extend_from_slice(&unrelated);
+                }
+                2 => {
+                    bin.extend_from_slice(&[0x06, 0x00, 0x01, 0x00]);
+                    bin.extend_from_slice(&seq.to_be_bytes());
+                }
+                _ => {
+                    bin.extend_from_slice(&[0x06, 0x00, 0x00, 0x00]);
+                    bin.extend_from_slice(&seq.to_be_bytes());
+                    bin.extend_from_slice(&[0x06, 0x00, 0x00, 0x00]);
+                    bin.extend_from_slice(&(seq ^ 0x8000_0001).to_be_bytes());
+                    // a look-alike: type 0x06 with another subtype
+                    bin.extend_from_slice(&[0x06, 0x01, 0, 0, 0xff, 0xff, 0xff, 0xff]);
+                }
+            }
+            out.push(Attribute::new_with_bin(Attribute::EXTENDED_COMMUNITY, bin).unwrap());
+        } else if tok % 4 == 3 {
+            // extended communities present, none of them MAC mobility (a look-alike subtype)
+            let mut bin = Vec::new();
+            bin.extend_from_slice(&unrelated);
+            bin.extend_from_slice(&[0x06, 0x01, 0, 0, 0xff, 0xff, 0xff, 0xff]);
             out.push(Attribute::new_with_bin(Attribute::EXTENDED_COMMUNITY, bin).unwrap());
         }
         let a = Arc::new(out);
